@@ -136,6 +136,11 @@ class Crate:
         if known is not None and not os.environ.get("VERIF_NO_INLINE"):
             import inline
             d["bodies"] = inline.inline_unknown(d["bodies"], known, self.inlined)
+        self.threaded = 0
+        if not os.environ.get("VERIF_NO_THREAD"):
+            import thread
+            for b in d["bodies"]:
+                self.threaded += thread.thread_jumps(b)
         self.bodies = [Body(b, self) for b in d["bodies"]]
         self.by_path = {}
         for b in self.bodies:
